@@ -1174,7 +1174,7 @@ theorem histOKRun_frag (cfg : DCfg) (hs : 0 ≤ cfg.scale) (w : DEnv α)
         · simp [isConst] at h
       simp only [onFrag, Bool.and_eq_true] at hfrag
       simp only [F.vars] at hw h0 hch
-      cases op <;> simp only [initOn] at hi <;> try (cases hi; done)
+      cases op <;> simp only [initOn] at hi <;> try (cases hi)
       all_goals
         obtain ⟨c0, e0, hi⟩ := bind_ok hi
         cases hi
@@ -1187,7 +1187,7 @@ theorem histOKRun_frag (cfg : DCfg) (hs : 0 ≤ cfg.scale) (w : DEnv α)
         · simp [isConst] at h
       simp only [onFrag, Bool.and_eq_true] at hfrag
       simp only [F.vars] at hw h0 hch
-      cases op <;> simp only [initOn] at hi <;> try (cases hi; done)
+      cases op <;> simp only [initOn] at hi <;> try (cases hi)
       obtain ⟨l0, e1, hi⟩ := bind_ok hi
       obtain ⟨r0, e2, hi⟩ := bind_ok hi
       cases hi
@@ -1202,7 +1202,7 @@ theorem histOKRun_frag (cfg : DCfg) (hs : 0 ≤ cfg.scale) (w : DEnv α)
         · simp [isConst] at h
       simp only [onFrag, Bool.and_eq_true, decide_eq_true_eq] at hfrag
       simp only [F.vars] at hw h0 hch
-      cases op <;> simp only [initOn] at hi <;> try (cases hi; done)
+      cases op <;> simp only [initOn] at hi <;> try (cases hi)
       all_goals
         obtain ⟨c0, e0, hi⟩ := bind_ok hi
         cases hi
@@ -1220,7 +1220,7 @@ theorem histOKRun_frag (cfg : DCfg) (hs : 0 ≤ cfg.scale) (w : DEnv α)
       have h0' := h0
       have hch' := hch
       simp only [F.vars] at hw h0 hch
-      cases op <;> simp only [initOn] at hi <;> try (cases hi; done)
+      cases op <;> simp only [initOn] at hi <;> try (cases hi)
       obtain ⟨l0, e1, hi⟩ := bind_ok hi
       obtain ⟨r0, e2, hi⟩ := bind_ok hi
       cases hi
